@@ -1,6 +1,15 @@
 // E2 harness for C04 (value semantics), C06 (reextent/clear/reshape/assign) and C08 (construct once / destroy once / storage returned).
 // Compile-time configuration:  -DHM_D=<1..4>  -DHM_ELEM=<0 tracked element | 1 int (trivially default constructible)>
 #include "../engine/hist_model.hpp"
+#ifdef HM_SERIAL   // serialisation-load as a letter of the history alphabet (C08: monitors across the clear()+reextent load path; C17: every prior state of the loading array)
+#include <boost/archive/text_iarchive.hpp>
+#include <boost/archive/text_oarchive.hpp>
+#include <boost/archive/binary_iarchive.hpp>
+#include <boost/archive/binary_oarchive.hpp>
+#include <boost/serialization/nvp.hpp>
+#include <sstream>
+#include <boost/multi/detail/serialization.hpp>
+#endif
 
 #ifndef HM_D
 #define HM_D 2
@@ -203,6 +212,12 @@ static void build_ops(bool thorough) {
 				[s](Pool& p) { assign_rows<D, Arr>(*p.a, s, 600, true, &p.a); }, {}});
 		}
 	}
+#ifdef HM_SERIAL
+	add({"b<-load(save(a),text)", "serialization-load", "C17", F_NONE, [](MPool& m) { int al = m.b.alloc; m.b = m.a; m.b.alloc = al; return true; },
+		[](Pool& p) { bool const cf = W.count_faults; W.count_faults = false; std::stringstream ss; { boost::archive::text_oarchive oa(ss); oa << boost::serialization::make_nvp("a", *p.a); } W.count_faults = cf; boost::archive::text_iarchive ia(ss); ia >> boost::serialization::make_nvp("a", *p.b); }, {}});
+	add({"a<-load(save(b),binary)", "serialization-load", "C17", F_NONE, [](MPool& m) { int al = m.a.alloc; m.a = m.b; m.a.alloc = al; return true; },
+		[](Pool& p) { bool const cf = W.count_faults; W.count_faults = false; std::stringstream ss; { boost::archive::binary_oarchive oa(ss); oa << boost::serialization::make_nvp("b", *p.b); } W.count_faults = cf; boost::archive::binary_iarchive ia(ss); ia >> boost::serialization::make_nvp("b", *p.a); }, {}});
+#endif
 	add({"a.clear()", "clear", "C06", F_NEVER_ALLOC, [](MPool& m) { m.a.v.clear(); return true; }, [](Pool& p) { p.a->clear(); }, {}});
 	add({"a={}", "a={}", "C06", F_NEVER_ALLOC, [](MPool& m) { m.a.v.clear(); return true; }, [](Pool& p) { *p.a = {}; }, {}});
 	// ---- initializer lists (static shapes)
@@ -459,7 +474,7 @@ int main(int argc, char** argv) {
 					bool monitor = is_monitor_oracle(o.oracle);
 					std::string owner = monitor ? "C08" : od.prop;
 					if(o.oracle == "allocated" || o.oracle == "same-extent-assignment-allocated") { owner = "C09"; }
-					bool mine = prop == "all" || prop == owner || (prop == "C10" && (is_alloc_oracle(o.oracle) || !monitor)) || (prop == "C08" && monitor);
+					bool mine = prop == "all" || prop == owner || (prop == "C06" && owner == "C17") || (prop == "C10" && (is_alloc_oracle(o.oracle) || !monitor)) || (prop == "C08" && monitor);
 					if(mine) {
 						mc::R.violation(tag + "|" + cls + "|" + o.oracle.substr(0, o.oracle.find('(')),
 							mc::J().s("harness", "histmc").s("config", cfgid).s("replay", rp).s("history", hist_str(st.h)).s("op", od.name).s("oracle", o.oracle).s("detail", o.detail).s("model_before", key_of(st.m)).s("model_after", key_of(m2)).str());
